@@ -339,6 +339,17 @@ def assign_roles_by_type(body, table):
     return roles
 
 
+def return_locals(b, hops=6):
+    """the return place and the locals whose value is moved into it (`break Ok(None)` assigns the loop's result, which is then returned): a value
+    built for them is an answer of the function - unlike the same-looking result of a helper that was spliced in, which the caller still examines"""
+    ret = {0}
+    for _ in range(hops):
+        for i, j, p_, rv, line in b.assigns():
+            if p_[0] in ret and not p_[1] and rv[0] == "use" and rv[1][0] in ("m", "c") and not rv[1][1][1]:
+                ret.add(rv[1][1][0])
+    return ret
+
+
 def take_and_restore_rule(r, crate, ctx, scope=lambda b: True):
     """Decoders that take their state out at the head of the loop (`match mem::take(state) { .. }`) leave the default state behind: every exit that
     asks for more input (`Ok(None)`) from a state other than the default one must put a state back first - otherwise the decoder restarts at the
@@ -372,7 +383,8 @@ def take_and_restore_rule(r, crate, ctx, scope=lambda b: True):
                 continue
             ctx.saw(b)
             assigns = {i for i, j, p_, rv, line in b.assigns() if describe_place(b, p_) == held and i != tk.block and not b.dominates(i, tk.block)}
-            nones = [(i, line) for i, j, p_, rv, line in b.assigns() if describe_rvalue(b, rv).startswith("Result::Ok(Option::None")]
+            rl = return_locals(b)
+            nones = [(i, line) for i, j, p_, rv, line in b.assigns() if describe_rvalue(b, rv).startswith("Result::Ok(Option::None") and p_[0] in rl and not p_[1]]
             fn = "%s::%s" % ((b.meta.get("self_adt") or "?").split("::")[-1], b.meta.get("name"))
             for v, t in sorted(ve.items()):
                 if v in (default, "_") or t == si.get("otherwise"):
@@ -540,6 +552,46 @@ def in_variant(b, block, place, variant, gs=None):
             if has_place and has_var and (l == "true") == (m.group(1) == "eq"):
                 return True
     return False
+
+
+def implied_by_variant(b, switch_block, label, hops=4):
+    """What else holds when a match finds a value that was chosen among several to be `label`: the tests common to every place where a value of that
+    variant is put into the matched local (`let count_tag = if mid_operation { None } else { .. Some(tag) .. }; let Some(tag) = count_tag else {..}`:
+    Some implies !mid_operation). [(description, label)]"""
+    from mirlib import dom_guards, op_place
+    si = b.switch_info(switch_block) or {}
+    if si.get("kind") != "disc" or not si.get("place") or si["place"][1]:
+        return []
+    sites = []
+    seen = set()
+
+    def walk(loc, n):
+        if loc in seen or n <= 0:
+            return True
+        seen.add(loc)
+        ds = b.defs.get(loc, ())
+        if not ds:
+            return False
+        for d in ds:
+            if d[0] != "assign":
+                return False
+            rv = d[3]
+            if rv[0] == "agg" and isinstance(rv[1], dict) and "variant" in rv[1]:
+                if rv[1]["variant"] == label:
+                    sites.append(d[1])
+            elif rv[0] == "use" and rv[1][0] in ("c", "m") and not rv[1][1][1]:
+                if not walk(rv[1][1][0], n - 1):
+                    return False
+            else:
+                return False
+        return True
+    if not walk(si["place"][0], hops) or not sites:
+        return []
+    common = None
+    for blk in sites:
+        gs = {(d, l) for d, l, _ in dom_guards(b, blk)}
+        common = gs if common is None else (common & gs)
+    return sorted(common or ())
 
 
 def answers_only_with(b, call_name):
